@@ -80,6 +80,19 @@ def make_text(kind, content, serial):
     obj.compose.id, obj.compose.type, obj.compose.date, obj.compose.respin = "Foo-1.0-20160622.n.%d" % serial, "nightly", "20160622", serial
     if kind == "info":
         obj.release.name, obj.release.short, obj.release.version, obj.release.type = "Foo", "Foo", "1.0", "ga"
+        if serial % 3:
+            # a small forest: a nested variant and a dashed top-level one (keys differ from UIDs)
+            from productmd.composeinfo import Variant
+
+            def variant(vid, uid, typ):
+                v = Variant(obj)
+                v.id, v.uid, v.name, v.type, v.arches = vid, uid, vid, typ, set(["x86_64"])
+                return v
+            server = variant("Server", "Server", "variant")
+            obj.variants.add(server)
+            server.add(variant("optional", "Server-optional", "optional"))
+            if serial % 3 == 2:
+                obj.variants.add(variant("ClientTools", "Client-Tools", "variant"))
     elif kind == "rpms":
         obj.add("Server", "x86_64", "pkg%d-0:1-1.x86_64" % serial, "p/x.rpm", None, "binary", "pkg%d-0:1-1.src" % serial)
     elif kind == "modules":
@@ -253,6 +266,19 @@ def probe(tmp, root, locations, layout):
                 direct.load(os.path.join(mdir, fname))
                 if direct.dumps() == text:
                     matches.append(fname)
+            if kind == "info" and matches:
+                # using the object (read-only: look every variant up, list them) leaves it equal to a direct load that is used the same way
+                def snap(ci):
+                    return {"top": sorted(ci.variants.variants), "len": len(ci.variants), "iter": list(ci.variants), "all": [v.uid for v in ci.get_variants(recursive=True)],
+                            "nested": dict((v.uid, sorted(v.variants)) for v in ci.get_variants(recursive=True))}
+                direct = classes[kind]()
+                direct.load(os.path.join(mdir, matches[0]))
+                fresh = snap(direct)
+                for uid in fresh["all"]:
+                    check(obj[uid].uid == uid, "lookup-in-reused-object", "info[%r] returned %r" % (uid, obj[uid].uid))
+                used = snap(obj)
+                check(used == fresh, "object-changed-by-reading-it",
+                      lambda: "info: after looking its variants up the reused object lists %r, a direct load of %s lists %r" % (used, matches[0], fresh))
             check(matches, "loaded-object-differs-from-direct-load", lambda: "%s: object from %r equals none of the candidate files %r" % (kind, resolved, sorted(candidates)))
             check(isinstance(obj, classes[kind]), "wrong-class", "%s returned %r" % (kind, type(obj)))
             # cached: delete the files, re-access must give the identical object without re-reading
